@@ -34,12 +34,14 @@ type TCPConn struct {
 }
 
 type TCPFault struct {
-	Kind       string `json:"kind"` // host-add host-remove host-replace backend-down backend-up probe-fail probe-ok stop drain
-	Node       int    `json:"node,omitempty"`
-	Nodes      []int  `json:"nodes,omitempty"`
-	After      int    `json:"after_steps,omitempty"` // steps after the first client connected
-	AtMs       int    `json:"at_ms,omitempty"`
-	AsBackup   bool   `json:"as_backup,omitempty"`
+	Kind     string `json:"kind"` // host-add host-remove host-replace backend-down backend-up probe-fail probe-ok stop drain
+	Node     int    `json:"node,omitempty"`
+	Nodes    []int  `json:"nodes,omitempty"`
+	After    int    `json:"after_steps,omitempty"` // steps after the first client connected
+	AtMs     int    `json:"at_ms,omitempty"`
+	AsBackup bool   `json:"as_backup,omitempty"`
+	// OtherType (host-add): the endpoint is announced with the type it does not have at the moment (main <-> backup)
+	OtherType  bool   `json:"other_type,omitempty"`
 	AfterStart int    `json:"after_start,omitempty"` // >= 1: AfterStart-1 steps after Start() returned
 	Site       string `json:"site,omitempty"`        // fire when a task is parked at a site containing this text (after the other trigger is due)
 }
@@ -236,6 +238,7 @@ type tcpWorld struct {
 	netCounts                     map[string]int
 	members                       map[int]bool // reference model: current endpoint set (by backend index)
 	memberHistory                 []memberEvent
+	typeNow                       map[int]bool // node -> is backup, for members whose type was changed by an announcement
 	onServerConn                  func(w *tcpWorld, p *peer, b *world.Backend)
 	startedStep                   int64
 	probeDownSince                map[int]time.Time
@@ -255,6 +258,7 @@ type removedHost struct {
 type memberEvent struct {
 	step    int64
 	members map[int]bool
+	backup  map[int]bool // members whose type is backup at that point
 }
 
 func newTCPWorld(sc *TCPScenario) *tcpWorld {
@@ -331,7 +335,21 @@ func (w *tcpWorld) snapshotMembers() {
 			m[k] = true
 		}
 	}
-	w.memberHistory = append(w.memberHistory, memberEvent{step: w.rtStep(), members: m})
+	b := map[int]bool{}
+	for k := range m {
+		if w.isBackup(k) {
+			b[k] = true
+		}
+	}
+	w.memberHistory = append(w.memberHistory, memberEvent{step: w.rtStep(), members: m, backup: b})
+}
+
+// isBackup: the type member k has now (a later announcement may have changed the type it started with)
+func (w *tcpWorld) isBackup(k int) bool {
+	if t, ok := w.typeNow[k]; ok {
+		return t
+	}
+	return w.sc.Env.BackupFrom > 0 && k >= w.sc.Env.BackupFrom
 }
 
 func (w *tcpWorld) rtStep() int64 {
@@ -549,6 +567,21 @@ func (w *tcpWorld) inject(f *TCPFault) bool {
 			return false
 		}
 		hs := w.hostsOf(f, f.Node)
+		if f.OtherType && f.Node < len(w.env.Backends) {
+			nb := !w.isBackup(f.Node)
+			if w.typeNow == nil {
+				w.typeNow = map[int]bool{}
+			}
+			w.typeNow[f.Node] = nb
+			t := host.TypeMain
+			if nb {
+				t = host.TypeBackup
+			}
+			hs = []*host.Host{host.NewWithType(world.BackendAddr(f.Node), t)}
+		} else if w.typeNow != nil && f.Node < len(w.env.Backends) {
+			// announced again with the type of its configuration
+			delete(w.typeNow, f.Node)
+		}
 		w.members[f.Node] = true
 		w.snapshotMembers()
 		tk := w.rt.Go("harness:host-add", func() { p.OnSvcHostAdd(hs) })
@@ -561,6 +594,7 @@ func (w *tcpWorld) inject(f *TCPFault) bool {
 		}
 		hs := w.hostsOf(f, f.Nodes...)
 		old := w.members
+		w.typeNow = nil // the new list announces every endpoint with the type of its configuration
 		w.members = map[int]bool{}
 		for _, i := range f.Nodes {
 			if i < len(w.env.Backends) {
